@@ -255,13 +255,6 @@ Section ItemsProofs.
   Variable parse : bytes -> pres A.
   Hypothesis parse_no_panic : forall s, parse s <> PPanic.
 
-  Definition for_yield (fp forPart : bytes) : bytes * bool :=
-    let fp := trim_space fp in
-    match cut "=" fp with
-    | None => (forPart, true)
-    | Some (k, v) => if is_for k then (v, false) else (forPart, true)
-    end.
-
   Lemma for_fold l : forall acc,
     fst (fold_stop for_yield l acc) =
     match find (fun kv : option (bytes * bytes) => match kv with Some (k, _) => is_for k | None => false end)
@@ -290,12 +283,6 @@ Section ItemsProofs.
     unfold parse_forwarded_list_item.
     pose proof (take_is _ _ 4 (split_seq_is ";" fwd)) as Ht.
     rewrite (Ht bytes). clear Ht.
-    change (fun (fp forPart : bytes) =>
-              let fp0 := trim_space fp in
-              match cut "=" fp0 with
-              | Some (k, v) => if is_for k then (v, false) else (forPart, true)
-              | None => (forPart, true)
-              end) with for_yield.
     pose proof (for_fold (firstn (N.to_nat 4) (split_on ";" fwd)) []) as Hf.
     destruct (fold_stop for_yield (firstn (N.to_nat 4) (split_on ";" fwd)) []) as [forPart k].
     simpl fst in Hf. subst forPart.
